@@ -290,13 +290,15 @@ func (t *trzszTransfer) recvPrefixHash(writer fileWriter, srcFile *sourceFile, t
 			continue
 		}
 
+		// the step comes from the peer: hash the next block of the file
+		// without allocating a buffer of that size
 		step := hash.Step - matchStep
-		buffer := make([]byte, step)
-		n, err := io.ReadFull(file, buffer)
-		if err != nil {
+		if step <= 0 {
+			return simpleTrzszError("Invalid hash step: %d after %d", hash.Step, matchStep)
+		}
+		if _, err := io.CopyN(hasher, file, step); err != nil {
 			return err
 		}
-		hasher.Write(buffer[:n])
 
 		match = hash.Hash == fmt.Sprintf("%x", hasher.Sum(nil))
 		if match {
